@@ -360,6 +360,20 @@ func proofToPath(
 		if !got.Equal(hash) {
 			return nil, fmt.Errorf("proof node hash mismatch, expected hash: %s, got hash: %s", hash.String(), got.String())
 		}
+		// Hand out a private copy: the nodes get linked into (and modified as part of) the reconstructed
+		// trie, and two sibling sub-tries with equal content share ONE entry of the node set. Without the
+		// copy they would be the same object, which unsetInternal's fork detection (pointer comparison)
+		// mistakes for "both boundary keys continue in the same child".
+		switch n := n.(type) {
+		case *trienode.BinaryNode:
+			cpy := n.Copy()
+			cpy.Flags = trienode.NewNodeFlag()
+			return cpy, nil
+		case *trienode.EdgeNode:
+			cpy := n.Copy()
+			cpy.Flags = trienode.NewNodeFlag()
+			return cpy, nil
+		}
 		return n, nil
 	}
 
